@@ -42,8 +42,10 @@ type scenarioParams struct {
 	every      int // query round after every n-th operation
 	pairs      int // (contract, slot) pairs per block id
 	txPerKind  int
-	consistBlk int // blocks per round for the cross-method consistency pass
-	exhaustAt  int // operation index after which scenarios 0 and 1 run the exhaustive round
+	consistBlk int  // blocks per round for the cross-method consistency pass
+	exhaustAt  int  // operation index after which the exhaustive round runs (-1: never)
+	short      bool // a short history (more reorg / L1 operations per block)
+	preConf    bool // pre_confirmed data present on the nodes
 }
 
 func main() {
@@ -103,13 +105,20 @@ func main() {
 		only = &h.replay.Scenario
 	}
 
-	nScen := h.f.Scale(6, 40)
-	sp := scenarioParams{ops: h.f.Scale(26, 60), every: h.f.Scale(4, 5), pairs: h.f.Scale(3, 5), txPerKind: h.f.Scale(3, 6), consistBlk: h.f.Scale(2, 4), exhaustAt: h.f.Scale(9, 13)}
+	// a few long histories (sampled rounds, reorgs, L1 head moves, the block-hash-lag boundary) and
+	// many short ones (height 3..7) each ending in the exhaustive round
+	nLong, nShort := h.f.Scale(3, 16), h.f.Scale(13, 140)
+	long := scenarioParams{ops: h.f.Scale(26, 60), every: h.f.Scale(4, 5), pairs: h.f.Scale(3, 5), txPerKind: h.f.Scale(3, 6), consistBlk: h.f.Scale(2, 4), exhaustAt: -1}
 	root := lib.NewRNG(h.f.Seed)
-	for s := 0; s < nScen; s++ {
+	for s := 0; s < nLong+nShort; s++ {
 		r := root.Fork(uint64(s))
 		if only != nil && *only != s {
 			continue
+		}
+		sp := long
+		if s >= nLong {
+			ops := 4 + r.Intn(5)
+			sp = scenarioParams{ops: ops, every: 1000, pairs: 2, txPerKind: 2, consistBlk: 2, exhaustAt: ops - 1, short: true, preConf: s%4 == 3}
 		}
 		if err := h.scenario(s, r, sp); err != nil {
 			res.Fatalf("scenario %d aborted: %v", s, err)
@@ -129,6 +138,10 @@ func (h *harness) scenario(s int, r *lib.RNG, sp scenarioParams) error {
 		return err
 	}
 	w.startVersion = s / 2
+	if sp.preConf {
+		w.enablePreConfirmed()
+		h.res.Hit("config:pre_confirmed-data-present")
+	}
 	lines := []string{"reset"}
 	round := 0
 	doQueries := func(qs []*query) error {
@@ -173,7 +186,7 @@ func (h *harness) scenario(s int, r *lib.RNG, sp scenarioParams) error {
 				}
 				h.res.Hit("round:right-after-reorg")
 			}
-		case ht >= 3 && r.Chance(1, 8):
+		case (ht >= 3 && r.Chance(1, 8)) || (sp.short && ht >= 2 && r.Chance(1, 5)):
 			// a reorg: drop 1..3 blocks (the next operations re-grow a different fork). Ask about
 			// the blocks that are about to go first, by every kind of id (warms whatever caches)
 			if err := doQueries(w.warm(r)); err != nil {
@@ -245,7 +258,7 @@ func (h *harness) scenario(s int, r *lib.RNG, sp scenarioParams) error {
 			}
 		}
 		w.traceSlot(op)
-		if op == sp.exhaustAt && s < 2 {
+		if op == sp.exhaustAt {
 			// the whole small space: every id x every method x every index / hash / address / slot / class
 			if err := doQueries(w.exhaustive()); err != nil {
 				return err
@@ -258,7 +271,11 @@ func (h *harness) scenario(s int, r *lib.RNG, sp scenarioParams) error {
 			}
 		}
 	}
-	if s%3 == 0 && w.height() > 0 {
+	h.res.HitN("tx:reverted-then-included-again", w.reincluded)
+	for _, n := range w.nodes {
+		h.res.HitN("feeder:status-fallback-calls", n.feeder.calls)
+	}
+	if s%3 == 0 && w.height() > 0 && !sp.short {
 		// take the chain down to nothing: every hash is now a reverted one
 		for w.height() > 0 {
 			if err := w.revert(); err != nil {
@@ -762,7 +779,11 @@ func (h *harness) consistency(s, round int, w *world, picks []consistencyPick) {
 				report := func(what string) {
 					q := &query{method: "blockTxs", id: id}
 					ctx := &caseCtx{s: s, round: round, qi: -1, w: w, q: q, ver: ver, backend: backendName[ni]}
-					h.res.Violate(lib.Violation{Sig: "inconsistent:" + ver + ":" + fieldOf(what),
+					sig := "inconsistent:" + ver + ":" + fieldOf(what)
+					if w.l1Sentinel && n == 0 && strings.HasPrefix(what, "receipt-content: finality_status: want \"ACCEPTED_ON_L1\" got \"ACCEPTED_ON_L2\"") {
+						sig = sigL1Sentinel
+					}
+					h.res.Violate(lib.Violation{Sig: sig,
 						What:   fmt.Sprintf("%s on the %s backend, block %d: %s", ver, backendName[ni], n, what),
 						Replay: ctx.replay("the same rendering through every method", what)})
 				}
